@@ -66,12 +66,12 @@ package network
 //@   at return assert #deescalate-is-the-parent-step err == nil && action == "deescalateAction" ==> nextPriv == current && prevOf(d, current) == mapTo[1] && soundPath(d, mapTo, current, target)
 
 //@ secret [C11] Driver.AuthSecondary readers (*Driver).escalate
-// stepErr: ghost - the error the send of a privilege step came back with
-//@ ghost stepErr any local
+// privStepErr: ghost - the error the send of a privilege step came back with
+//@ ghost privStepErr any local
 //@ func (*Driver).escalate [C04 C11 C12]
-//@   after call SendInput#1 set stepErr = result.1
-//@   after call SendInteractive#1 set stepErr = result.1
-//@   at return assert [C04 C05 C06] #the-error-of-the-escalation-exchange-is-what-is-returned result == stepErr
+//@   after call SendInput#1 set privStepErr = result.1
+//@   after call SendInteractive#1 set privStepErr = result.1
+//@   at return assert [C04 C05 C06] #the-error-of-the-escalation-exchange-is-what-is-returned result == privStepErr
 //@   flows [C11] #secondary-secret-goes-only-into-the-hidden-event d.AuthSecondary only to store:SendInteractiveEvent.ChannelInput
 //@   requires RI(d.Channel.Q) && d.Channel.PromptSearchDepth >= 0
 //@   ensures RI(d.Channel.Q)
@@ -86,8 +86,8 @@ package network
 //@   ensures #ignored !typeis(o, "*channel.OperationOptions") ==> result == util.ErrIgnoredOption
 
 //@ func (*Driver).deescalate [C04]
-//@   after call SendInput#1 set stepErr = result.1
-//@   at return assert [C04 C05 C06] #the-error-of-the-deescalation-exchange-is-what-is-returned result == stepErr
+//@   after call SendInput#1 set privStepErr = result.1
+//@   at return assert [C04 C05 C06] #the-error-of-the-deescalation-exchange-is-what-is-returned result == privStepErr
 //@   requires RI(d.Channel.Q) && d.Channel.PromptSearchDepth >= 0
 //@   ensures RI(d.Channel.Q)
 //@   modifies wire, rd, sent, quiet, echoed, optlog, alloc(), all(util.Queue.queue), all(util.Queue.depth), chans()
